@@ -469,3 +469,62 @@ def run_case(ctx, rng, idx):
                 ctx.sample({"type": node.src[:300], "valid": repr(valid)[:300], "planted": [repr(p) for p in chosen], "expected_trails": [list(map(repr, t)) for t in expected_trails(chosen)]})
             for dt in (DebugTrail.ALL, DebugTrail.FIRST, DebugTrail.DISABLE):
                 check_case(ctx, node, providers, valid, list(chosen), dt, sc, desc)
+
+
+# ---- directed witnesses (run on every invocation, independent of the seed) ---------------------------------------------------------
+def _deep_crowns_multi_fault(ctx):
+    """A model flattened over THREE levels of the input (crowns at depth 2) with forbidden unknown keys: every subset of seven
+    independent faults - wrong containers at depth 1 and 2, bad leaves next to them, unknown keys of enclosing crowns - is reported
+    completely under ALL, by one of them under FIRST (seeded change: only depth-1 crowns kept their own handler for 'wrong container',
+    so such a fault at depth 2 swallowed whatever the enclosing crowns still had to report)."""
+    from dataclasses import make_dataclass  # noqa: PLC0415
+
+    from adaptix import ExtraForbid, Retort, name_mapping  # noqa: PLC0415
+    M = make_dataclass("Deep05", [("a", int), ("b", int), ("c", int), ("d", int), ("e", int), ("f", int)])
+    recipe = [name_mapping(M, map={"a": ("h", "g1", "a"), "b": ("h", "g2", "b"), "d": ("h", "d"), "e": ("h", "g3", 0), "f": ("h", "g3", 1)}, extra_in=ExtraForbid())]
+
+    def valid():
+        return {"h": {"g1": {"a": 1}, "g2": {"b": 2}, "d": 4, "g3": [5, 6]}, "c": 3}
+    faults = {   # name: (apply, expected trail, names it cannot be combined with)
+        "g1-not-a-mapping": (lambda d: d["h"].__setitem__("g1", 5), ("h", "g1"), ()),
+        "g2-not-a-mapping": (lambda d: d["h"].__setitem__("g2", [1]), ("h", "g2"), ("bad-b", "junk-in-g2")),
+        "g3-not-a-sequence": (lambda d: d["h"].__setitem__("g3", 7), ("h", "g3"), ("bad-f",)),
+        "bad-b": (lambda d: d["h"]["g2"].__setitem__("b", "bad"), ("h", "g2", "b"), ("g2-not-a-mapping",)),
+        "bad-d": (lambda d: d["h"].__setitem__("d", "bad"), ("h", "d"), ()),
+        "bad-f": (lambda d: d["h"]["g3"].__setitem__(1, "bad"), ("h", "g3", 1), ("g3-not-a-sequence",)),
+        "bad-c": (lambda d: d.__setitem__("c", "bad"), ("c",), ()),
+        "junk-in-h": (lambda d: d["h"].__setitem__("junk", 0), ("h",), ()),
+        "junk-in-g2": (lambda d: d["h"]["g2"].__setitem__("junk", 0), ("h", "g2"), ("g2-not-a-mapping",)),
+    }
+    names = list(faults)
+    for k in (1, 2, 3, 4):
+        for chosen in itertools.combinations(names, k):
+            if any(o in chosen for n in chosen for o in faults[n][2]):
+                continue
+            datum = valid()
+            for n in chosen:
+                faults[n][0](datum)
+            want = sorted((faults[n][1] for n in chosen), key=repr)
+            for dt in (DebugTrail.ALL, DebugTrail.FIRST, DebugTrail.DISABLE):
+                out = attempt(Retort(recipe=recipe, debug_trail=dt).load, copy.deepcopy(datum), M)
+                ctx.evaluated(("deep-crowns", chosen, dt.name), nontrivial=True)
+                ctx.count(f"mode_{dt.name}")
+                ctx.count(f"faults_{min(len(chosen), 4)}")
+                info = {"planted": list(chosen), "datum": repr(datum), "mode": dt.name, "adaptix": repr(out)[:400]}
+                if out.kind != "load_error":
+                    ctx.violation("planted-fault-accepted:deep-crowns" if out.kind == "ok" else f"non-loaderror:deep-crowns:{type(out.exc).__name__}", f"planted {chosen}: {out!r:.200} [{dt.name}]", info)
+                    continue
+                if dt == DebugTrail.ALL:
+                    have = sorted((tuple(t) for t, _ in leaves_stop_union(out.exc)), key=repr)
+                    if have != want:
+                        what = "lost" if len(have) < len(want) else "duplicated-or-spurious" if len(have) > len(want) else "misplaced"
+                        ctx.violation(f"all-mode-trails-{what}:deep-crowns", f"planted {chosen}: reported trails {have}, expected {want}", info)
+                elif dt == DebugTrail.FIRST:
+                    t = tuple(get_trail(out.exc))
+                    if t not in want:
+                        ctx.violation("first-mode-trail-not-planted:deep-crowns", f"planted {chosen}: FIRST trail {list(t)} is none of {want}", info)
+                elif tuple(get_trail(out.exc)):
+                    ctx.violation("disable-mode-has-trail", f"planted {chosen}: DISABLE attached a trail", info)
+
+
+DIRECTED = {"deep-crowns-multi-fault": _deep_crowns_multi_fault}
